@@ -36,6 +36,8 @@ RULE = (
     "1-2 variables). "
     "Affine metamorphic maps a in 1e-3..1e7, b up to 1e7 per axis. Grids 3x3..25x40 with NaN holes (interior, corner, band), named/unnamed, "
     "three dim namings; projections: axis-aligned affine incl. reflections, shear/rotation, separable monotone non-linear, polar / sinusoidal; "
+    "Memory layouts (stream layouts): the same logical query / data / grid arrays as C, Fortran, transposed views, strided and negative-stride views, "
+    "read-only, 3-D, pandas Series and with easting and northing in different layouts - judged element-wise by the oracle and against the C-ordered copy. "
     "methods nearest/linear/cubic and gridder objects, both antialias settings, region/shape/spacing/dims kwargs; projected grids keep "
     "cell_aspect*(1+offset/extent) <= 1e4 except in the always-on stream pg_anisotropic (>= 1e5, known finding F10). Non-trivial = at least one "
     "query strictly inside and one strictly outside (mask) or a non-identity projection with a non-square grid (project_grid); distinct = "
@@ -63,6 +65,22 @@ FLOORS = {
                  "eval:pg_affine_reproduces_values": 160000, "eval:pg_antialias_range": 150000, "mask:lattice_points_decided_exactly": 300000,
                  "mask:calls_nested_in_project_grid": 4800, "distinct_nontrivial": 22000},
 }
+LAYOUT_CLASSES = (
+    ["query_" + k for k in ("fortran", "transposed_view", "strided", "negative_strides", "negative_rows_fortran", "readonly", "readonly_fortran",
+                            "mixed_fortran_easting", "mixed_transposed_northing", "mixed_strided_negative", "3d_c", "3d_fortran", "3d_mixed",
+                            "3d_axes_moved_view", "series", "1d_reversed_view")]
+    + ["data_" + k for k in ("fortran", "transposed_view", "strided", "negative_strides", "readonly_fortran", "mixed_fortran_easting",
+                             "mixed_transposed_northing", "series")]
+    + ["data_and_query_fortran", "projection_with_mixed_layouts", "grid_values_fortran", "grid_values_transposed_view", "grid_transposed_twice",
+       "grid_strided_coordinate_vectors"]
+)
+PG_LAYOUT_CLASSES = ["pg_values_fortran", "pg_values_transposed_view", "pg_transposed_twice", "pg_values_strided_coords_views", "pg_values_readonly_fortran"]
+for _tier, _n in (("quick", 60), ("thorough", 1200)):
+    FLOORS[_tier].update({"layout:" + k: int(0.4 * _n) for k in LAYOUT_CLASSES})
+    FLOORS[_tier].update({"layout:" + k: int(0.2 * _n) for k in PG_LAYOUT_CLASSES})
+    FLOORS[_tier].update({"eval:mask_layout_invariance": 1300 * _n, "eval:pg_layout_invariance": 110 * _n,
+                          "mask:query_layout:2d_F|2d_F": int(1.6 * _n), "mask:query_layout:2d_F|2d_C": int(0.4 * _n), "mask:query_layout:3d_F|3d_F": int(0.4 * _n),
+                          "mask:data_layout:2d_F|2d_C": int(0.8 * _n), "mask:grid_values_layout:2d_F": int(0.8 * _n), "pg:grid_values_layout:2d_F": int(0.4 * _n)})
 JOBS = {"quick": 1, "thorough": 8}
 CASE_TIMEOUT_S = 300
 
